@@ -209,6 +209,19 @@ EvalConstType(p, a, b) == Val((CASE p.ty = "int32" -> 1 [] p.ty = "int64" -> 2 [
 EvalSibLoops(p, a, b) == LET i == Clamp(a) j == Clamp(b) IN
   Val(CASE p.ret = "i-j" -> i - j [] p.ret = "j-i" -> j - i [] p.ret = "i+j" -> i + j [] OTHER -> i * 2 + j)
 
+\* "labeled":  outer: for i := 0; i < clamp(a); i++ { for j := 0; j < clamp(b); j++ {
+\*               if i*j > K { JUMP outer }; s += G(i, j) } }; return s        (JUMP: break | continue; a LABEL)
+RECURSIVE LabInner(_, _, _, _, _), LabOuter(_, _, _, _, _)
+\* result of the inner loop: <<s, stop>>  (stop = TRUE: `break outer` was taken)
+LabInner(p, i, j, y, s) ==
+  IF j >= y THEN <<s, FALSE>>
+  ELSE IF i * j > p.lim THEN <<s, p.jump = "break">>
+  ELSE LabInner(p, i, j + 1, y, s + G(p, i, j))
+LabOuter(p, i, x, y, s) ==
+  IF i >= x THEN s
+  ELSE LET r == LabInner(p, i, 0, y, s) IN IF r[2] THEN r[1] ELSE LabOuter(p, i + 1, x, y, r[1])
+EvalLabeled(p, a, b) == Val(LabOuter(p, 0, Clamp(a), Clamp(b), 0))
+
 \* "dectree":  if a > 0 { if C2 { return L1 } else { return L2 } } else { if C3 { return L3 } else { return L4 } }
 \* (a two-level decision tree: the shape on which a matcher that ignores control flow can be fooled by
 \* moving leaves or whole subtrees)
@@ -226,6 +239,7 @@ Eval(p, a, b) ==
     [] p.tpl = "extract" -> EvalExtract(p, a, b)
     [] p.tpl = "ubig" -> EvalUBig(p, a, b) [] p.tpl = "consttype" -> EvalConstType(p, a, b)
     [] p.tpl = "sibloops" -> EvalSibLoops(p, a, b) [] p.tpl = "dectree" -> EvalDecTree(p, a, b)
+    [] p.tpl = "labeled" -> EvalLabeled(p, a, b)
     [] p.tpl = "orand" -> EvalOrAnd(p, a, b) [] p.tpl = "switch2" -> EvalSwitch2(p, a, b) [] p.tpl = "loop" -> EvalLoop(p, a, b)
     [] p.tpl = "bigconst" -> EvalBigConst(p, a, b)
     [] p.tpl = "loopbranch" -> EvalLoopBranch(p, a, b) [] p.tpl = "rangebranch" -> EvalRangeBranch(p, a, b) [] p.tpl = "strbranch" -> EvalStrBranch(p, a, b)
@@ -255,6 +269,7 @@ UBig == [tpl : {"ubig"}, k : {"max", "max7", "hi16", "mid"}, small : {3, 5}, pre
 ConstType == [tpl : {"consttype"}, ty : {"int32", "int64", "uint8"}, pres : {Plain}]
 Leaves == {"a+b", "b", "7"}
 DecTree == [tpl : {"dectree"}, c2 : {"b>0", "a>b"}, c3 : {"b>0", "a>b"}, l1 : Leaves, l2 : Leaves, l3 : Leaves, l4 : Leaves, pres : {Plain}]
+Labeled == [tpl : {"labeled"}, jump : {"break", "continue"}, lim : {1, 3}, g : {"i*10+j", "j*10+i", "i+j"}, pres : {Plain}]
 SibLoops == [tpl : {"sibloops"}, ret : {"i-j", "j-i", "i+j", "i*2+j"}, pres : {Plain}]
 
 SharedCmp == [tpl : {"sharedcmp"}, cmp : Cmps, rhs : {"b", "k"}, thenE : SExprs, elseE : SExprs, pres : {Plain}]
@@ -280,7 +295,8 @@ Alt(p, h) ==
     [] h = "start" -> {0, 1} [] h = "step" -> {1, 2} [] h = "d" -> {1, 2} [] h = "c0" -> {0, 1}
     [] h = "acc" -> {"+", "*", "-"}
     [] h = "f" -> IF p.tpl = "loop" THEN {"i", "i*2", "i+b", "i-b", "a"} ELSE Callees
-    [] h = "g" -> IF p.tpl = "nested" THEN {"i*10+j", "j*10+i", "i+j", "i*j", "i-j"} ELSE Callees
+    [] h = "g" -> IF p.tpl = "nested" THEN {"i*10+j", "j*10+i", "i+j", "i*j", "i-j"}
+                  ELSE IF p.tpl = "labeled" THEN {"i*10+j", "j*10+i", "i+j"} ELSE Callees
     [] h \in {"op1", "op2", "op3"} -> IF p.tpl = "closure" /\ h = "op2" THEN {"+", "-", "*"} ELSE Ops
     [] h = "op" -> IF p.tpl = "closure" THEN Ops ELSE {"+", "*", "-"}
     [] OTHER -> {}
